@@ -298,12 +298,33 @@ def r04i(F):
 	out.append(Result('04.i', okd, ('ok:' if okd else 'shape:') + 'deadline-is-minimum', 'PaymentClaimable.claim_deadline derives from Iterator::min over the parts', len(acts), where=F.where(fn)))
 	return out
 
+def r04j(F):
+	"""what the receive checks rely on survives a restart: (i) the block-time clock used for the payment-secret expiry test is restored from the
+	slot it was written to (12.j: ChannelManager positional slots pair by type, no restored field is written as a constant); (ii) a held
+	payment part comes back with its own amounts - the ClaimableHTLC TLV table is restored field by field (12.a crossed / 12.i wrong-source)"""
+	import C12
+	out = []
+	for r in C12.r12j(F):
+		r.rule = '04.j'
+		out.append(r)
+	n_claimable = 0
+	for fn_ in (C12.r12a, C12.r12i):
+		for r in fn_(F):
+			if 'ClaimableHTLC' in r.key or (not r.ok and ('ClaimableHTLC' in r.msg or 'write_claimable_htlc' in r.msg)):
+				r.rule = '04.j'
+				out.append(r)
+				n_claimable += 1
+	if n_claimable < 1:
+		out.append(Result('04.j', False, 'anchor:claimable-htlc-table', 'the ClaimableHTLC TLV writer/reader pair was not found'))
+	return out
+
 RULES = [
 	('04.h', 'custom min-final-CLTV delta bytes: creation, delta reader and expiry decoder agree; expiry test uses the cleared value', r04h),
 	('04.a', 'inbound_payment::verify: Ok only past authentication, minimum amount and expiry', r04a),
 	('04.b', 'receive pipeline: handle_claimable_htlc only through verify Ok (one reviewed exemption) and the custom CLTV guard', r04b),
 	('04.c', 'PaymentClaimable only in handle_claimable_htlc on Ok(true) of the completion check; no parts added while claiming; purposes match', r04c),
 	('04.i', 'PaymentClaimable amount / deadline / channels are aggregated over the complete HTLC set, after the completing part was added', r04i),
+	('04.j', 'restart: the expiry clock and the amounts of held payment parts are restored from what was written', r04j),
 	('04.d', 'MPP completion predicate, bounded sum, agreement with the timer-side sibling', r04d),
 	('04.f', 'claim only behind the amount re-check; a refused claim fails every part', r04f),
 	('04.g', 'final-hop amount and cltv guards', r04g),
